@@ -208,3 +208,11 @@ def tla_value(v):
             return "(" + " @@ ".join(f"{k} :> {tla_value(x)}" for k, x in sorted(v.items())) + ")"
         return "[" + ", ".join(f"{k} |-> {tla_value(x)}" for k, x in v.items()) + "]"
     raise ValueError(v)
+
+
+def last_var(out, name):
+    """Value of variable `name` in the last state TLC printed (values may span several lines)."""
+    ms = list(re.finditer(r"^/\\ " + re.escape(name) + r" = (.*?)(?=^/\\ |^\s*$|^State |\Z)", out, re.S | re.M))
+    if not ms:
+        return "?"
+    return " ".join(ms[-1].group(1).split())
